@@ -52,6 +52,35 @@ def showGet (f : Fmt) : GetRes → String
 def dictSet (d : List ((Nat × Nat) × List Int)) (k : Nat × Nat) (v : List Int) : List ((Nat × Nat) × List Int) :=
   (k, v) :: d.filter (·.1 != k)
 
+def showRes (f : Fmt) : Except Err (List Int) → String
+  | .ok vs => showFmtVals f vs
+  | .error e => showErr e
+
+def worldFmt (w : World) (pid name : Nat) : Fmt :=
+  match (w.objOf pid).bind fun o => (findProg o.progs pid).bind (resolve · name) with
+  | some d => d.fmt
+  | none => .fixed
+
+/-- an earlier group of the process.  A process group is created (its devices are laid out in its shared array) and
+written from Python; in a plain group a written DeviceVar is an entry of the device's own `__dict__` -/
+def preStep (w : World) (j : Json) : Option (World × String) := do
+  let sets ← (← fArr j "sets").mapM getSet
+  if (← fStr j "group") == "plain" then
+    let w' := sets.foldl (fun (acc : World) (p, n, vs) => { acc with dicts := ((p, n), (vs.headD 0).toNat) :: acc.dicts }) w
+    return (w', "plain ops=" ++ ",".intercalate (sets.map fun _ => "ok"))
+  let progs ← (← fArr j "progs").mapM getProg
+  let attrs ← getAttrs (← field j "mapmro")
+  let found := simDiscover attrs
+  let w1 := w.create (← fNat j "main") found progs
+  let reads ← (← fArr j "reads").mapM getPair
+  let maps := ",".intercalate ((initMaps found progs).map fun (a, sz) => s!"{a.attr}:{a.map}:{sz}")
+  let pos := joinSp (reads.map fun k => s!"{k.1}.{k.2}@" ++ (match w1.dicts.get k with | some p => toString p | none => "-"))
+  let (w2, es) := sets.foldl (fun (acc : World × List String) (p, n, vs) =>
+    match acc.1.pySet p n vs with
+    | .ok w' => (w', acc.2 ++ ["ok"])
+    | .error e => (acc.1, acc.2 ++ [showErr e])) (w1, [])
+  pure (w2, s!"maps={maps} pos={pos} ops={",".intercalate es}")
+
 def step (j : Json) : Option String := do
   let progs ← (← fArr j "progs").mapM getProg
   let attrs ← getAttrs (← field j "mapmro")
@@ -65,22 +94,39 @@ def step (j : Json) : Option String := do
   match kind with
   | .loaded =>
     let found := simDiscover attrs
-    let s0 := mkSt found progs
+    -- the groups created earlier in the same process (devices of this group may have been in them)
+    let pres ← match field j "pre" with
+      | some p => jArr p
+      | none => pure []
+    let mut w : World := World.empty
+    let mut preLines : List String := []
+    for pj in pres do
+      let (w', l) ← preStep w pj
+      w := w'
+      preLines := preLines ++ [l]
+    let s0 := mkStFrom w.dicts found progs
     let (s, errs) := s0.run (sets.map fun (p, n, vs) => .pySet p n vs)
     let maps := ",".intercalate ((initMaps found progs).map fun (a, sz) => s!"{a.attr}:{a.map}:{sz}")
     let oks := ",".intercalate (found.map fun a => if layoutOkB (triples a.map progs) then "ok" else "overlap")
     let pos := joinSp (reads.map fun k =>
       let p := do
         let d ← (findProg s.progs k.1).bind (resolve · k.2)
-        if found.any (·.map = d.map) then positionOf (triples d.map s.progs) k else none
+        if found.any (·.map = d.map) then s.dicts.get k else none
       s!"{k.1}.{k.2}@" ++ (match p with | some p => toString p | none => "-"))
     let es := ",".intercalate (errs.map fun | none => "ok" | some e => showErr e)
     let bytes := ",".intercalate (s.arrays.map fun (m, d) => s!"{m}:" ++ hexOfBytes d)
     let vals := joinSp (reads.map fun k => showGet (fmtOf s k.1 k.2) (devGet .loaded none (s.pyGet k.1 k.2)))
-    pure s!"maps={maps} layout={oks} pos={pos} ops={es} bytes={bytes} reads={vals}"
+    let line := s!"maps={maps} layout={oks} pos={pos} ops={es} bytes={bytes} reads={vals}"
+    if pres.isEmpty then return line
+    let w1 := w.create 0 found progs
+    let prereads ← match field j "prereads" with
+      | some p => (← jArr p).mapM getPair
+      | none => pure []
+    let pv := joinSp (prereads.map fun k => showRes (worldFmt w1 k.1 k.2) (w1.pyGet k.1 k.2))
+    pure (line ++ " pre=" ++ " ; ".intercalate preLines ++ " prereads=" ++ pv)
   | k =>
     let d := sets.foldl (fun d (p, n, vs) => dictSet d (p, n) vs) []
-    let s0 : St := ⟨progs, []⟩
+    let s0 : St := ⟨progs, [], []⟩
     let vals := joinSp (reads.map fun r =>
       showGet (fmtOf s0 r.1 r.2) (devGet k ((d.find? (·.1 == r)).map (·.2)) (.error .key)))
     pure s!"maps= layout= pos= ops={",".intercalate (sets.map fun _ => "ok")} bytes= reads={vals}"
